@@ -684,16 +684,11 @@ def check_cond(ctx, drv, text, scratch, thorough, defsets=None, origin="cond"):
                     ctx.violation(f"-D{defs}: gfortran -cpp -E keeps marker statements at lines {alive}, implementation {mine}", case)
 
 
-def check_include(ctx, drv, scratch):
-    """a file reached by #include from a Fortran source — directly or through a chain of includes — is read as
-    free-form Fortran whatever the extensions of the files on the way; its #define selects lines of the includer"""
-    rng = ctx.rng
+def gen_include_case(rng):
     body = ["! don't count this comment", "#define A 1", "x = 'it''s' // \"&\" ! c", "", "!$omp declare", "#ifdef B", "y = 1 &",
             "  ! c", "  & + 2", "#endif"]
     depth = rng.choice([1, 2, 2, 3])
     names = [f"part{k}" + rng.choice([".h", ".inc", ".hpp", ".fi", ".hh", ".f90"]) for k in range(depth)]
-    sub = os.path.join(scratch, "incl")
-    os.makedirs(os.path.join(sub, "ext"), exist_ok=True)
     texts = {}
     for k, name in enumerate(names):
         lines = list(body)
@@ -702,18 +697,28 @@ def check_include(ctx, drv, scratch):
         if k + 1 < depth:
             lines.insert(rng.choice([0, 1, 5, len(lines)]), f'#include "{names[k + 1]}"')
         texts[name] = "\n".join(lines) + "\n"
+    main = f'#include "ext/{names[0]}"\n#ifdef A\nm1 = 1\n#else\nm2 = 2\n#endif\n'
+    return {"main": main, "includes": texts, "chain": names, "ext": rng.choice([".f90", ".F90"]), "origin": "include"}
+
+
+def check_include(ctx, drv, scratch, case=None):
+    """a file reached by #include from a Fortran source — directly or through a chain of includes — is read as
+    free-form Fortran whatever the extensions of the files on the way; its #define selects lines of the includer"""
+    case = case or gen_include_case(ctx.rng)
+    names, texts, main, ext = case["chain"], case["includes"], case["main"], case["ext"]
+    sub = os.path.join(scratch, "incl")
+    os.makedirs(os.path.join(sub, "ext"), exist_ok=True)
+    for name in names:
         with open(os.path.join(sub, "ext", name), "w") as f:
             f.write(texts[name])
-    main = f'#include "ext/{names[0]}"\n#ifdef A\nm1 = 1\n#else\nm2 = 2\n#endif\n'
-    ext = rng.choice([".f90", ".F90"])
     mpath = os.path.join(sub, "main" + ext)
     with open(mpath, "w") as f:
         f.write(main)
     from codebasin import CodeBase, finder
     from codebasin.preprocessor import FileNode
 
-    case = {"main": main, "includes": texts, "chain": names, "ext": ext, "origin": "include"}
-    ctx.count(key=f"include-chain-depth={depth}")
+    out = {}
+    ctx.count(key=f"include-chain-depth={len(names)}")
     try:
         cb = CodeBase(sub, exclude_patterns=["ext/*"])
         cfg = {"P": [{"file": mpath, "defines": ["B"], "include_paths": [], "include_files": []}]}
@@ -725,16 +730,20 @@ def check_include(ctx, drv, scratch):
         sel = lines_of_state(st, mpath)
     except Exception as e:  # noqa
         ctx.violation(f"include scenario raises {type(e).__name__}: {e}", case)
-        return
+        return {"exc": f"{type(e).__name__}: {e}"}
+    out["implementation"] = {"counted": got, "selected_lines_of_main": sel}
+    out["reference"] = {}
     for name in names:
         rep = drv.ask({"op": "fortran", "text": texts[name]}) if drv is not None else None
         want = rep["spec"] if rep and rep["wf"] else twin_spec(texts[name])
+        out["reference"][name] = want
         if got[name] != want:
             ctx.violation(f"{name} (level {names.index(name) + 1} of the include chain {names} below a Fortran source): counted {got[name]}, "
                           f"free-form reference {want}", case)
             break
     if sel != [1, 2, 3, 4, 6]:
         ctx.violation(f"#define in the included file does not select lines of the includer as in C: {sel}", case)
+    return out
 
 
 # --------------------------------------------------------------------------
@@ -859,6 +868,12 @@ def replay(ctx, drv, case):
                 out["spec"] = r.get("spec")
                 out["wf"] = r.get("wf")
             return out
+        if case.get("origin") == "include" and "chain" in case:
+            core.import_codebasin()
+            c2 = core.Ctx(ctx.prop, "quick", 0)
+            r = check_include(c2, drv, str(d), case)
+            r["violations"] = [w for w, _ in c2.violations]
+            return r
         if "text" not in case:
             return {"note": "scenario case", "case": case}
         out["implementation"] = {"FileParser": impl.parse(case["text"], case.get("ext", ".f90")),
